@@ -329,6 +329,38 @@ def r4b_arguments_belong_to_the_caller(ctx):
         ctx.ok("call|scope-popped", f.where(pops[0].block) if pops else f.where(), "pop_scope on every path after the body (before `?`)")
 
 
+def r4c_initialiser_sees_the_old_scope(ctx):
+    """`make x get <expr>`: the initialiser is checked (and its names resolved) before x is declared, so an x inside it is the
+    outer x - or an error when there is none - never the variable being declared."""
+    cs = ctx.need("resolver::Resolver::check_stmt")
+    ctx.touch(cs)
+    S = None
+    for cand in sorted(cs.live):
+        if cs.blocks[cand]["t"]["k"] == "switch":
+            si = cs.switch_info(cand)
+            if si["kind"] == "discr" and "parser::Stmt" in si["ty"]:
+                S = (cand, si)
+                break
+    if S is None:
+        ctx.bad("declare|no-dispatch", cs.where(), "check_stmt does not dispatch on the statement kind")
+        return
+    S, si = S
+    arm = set()
+    for lab, tgt in cs.succ[S]:
+        if label_names(cs, S, [lab], si) == {"Assign"}:
+            arm = {b for b in cs.live if cs.edge_dominated(b, S, [lab])} | {tgt}
+    init = [c for c in cs.calls() if c.block in arm and (c.callee or "").endswith("Resolver::check_expr") and sh(ne(cs.deep(c.args[1]))).endswith("@Assign.expr")]
+    decl = [c for c in cs.calls() if c.block in arm and ((c.callee or "").endswith("ProgramFacts::push_local_decl") or ((c.callee or "").endswith("Vec::push") and "variable_scopes" in sh(ne(cs.deep(c.args[0])))) or (c.callee or "").endswith("ProgramFacts::record_stmt_local"))]
+    if not init or not decl:
+        ctx.bad("declare|shape", cs.where(), "cannot see the initialiser check / the declaration in the Assign arm (%d/%d)" % (len(init), len(decl)))
+        return
+    late = [d for d in decl if not any(cs.dominates(i.block, d.block) and i.block != d.block for i in init)]
+    if late:
+        ctx.bad("declare|visible-in-own-initialiser", cs.where(late[0].block), "the variable of `make x get <expr>` is declared (%s) before its initialiser has been checked: an x inside the initialiser resolves to the variable being declared - a program that uses an undeclared name there is accepted, and a shadowing declaration `make x get x add 1` reads itself instead of the outer x" % (late[0].callee or "").split("::")[-1])
+    else:
+        ctx.ok("declare|initialiser-first", cs.where(init[0].block), "check_expr(initialiser) dominates %d declaration actions" % len(decl))
+
+
 def r5_recorded_is_consumed(ctx):
     """Every binding kind the resolver records is the one the runtime asks for on the same node kind."""
     pairs = [
@@ -467,7 +499,7 @@ def r5c_query_on_the_variable_node(ctx):
     ctx.floor("bound_expr_local queries", n, 6)
 
 
-RULES = [("C04-R1", r1_id_directed_lookup), ("C04-R2", r2_innermost_first), ("C04-R3", r3_sorted_tables), ("C04-R4", r4_scope_discipline), ("C04-R4b", r4b_arguments_belong_to_the_caller),
+RULES = [("C04-R1", r1_id_directed_lookup), ("C04-R2", r2_innermost_first), ("C04-R3", r3_sorted_tables), ("C04-R4", r4_scope_discipline), ("C04-R4b", r4b_arguments_belong_to_the_caller), ("C04-R4c", r4c_initialiser_sees_the_old_scope),
          ("C04-R5", r5_recorded_is_consumed), ("C04-R5b", r5b_record_unconditional), ("C04-R5c", r5c_query_on_the_variable_node)]
 
 EXPLANATION = (
@@ -484,6 +516,9 @@ EXPLANATION = (
 )
 EXPLANATION += (
     " Added after seeded changes were missed: R3 an insertion into a pointer-keyed binding table is skipped only when ptr::eq says that very node is already there; R5b after a successful lexical lookup the binding is recorded on every path (not only for some owners); R5c bound_expr_local is asked about the Expr::Var node itself, and flatten_index_target returns that node with its name."
+)
+EXPLANATION += (
+    " R4b: all arguments are evaluated before the callee's parameter scope is pushed and the scope is popped on every path after the body. R4c: check_expr(initialiser) dominates every declaration action of the Assign arm."
 )
 ASSUMPTIONS = ["the AST node address identifies the node (arena-allocated, never moved)"]
 TRUSTED = ["rustc nightly MIR", "nsx exporter", "nsverif edge-dominance"]
